@@ -126,10 +126,10 @@ Fixpoint revert_entries (cnt : nat) (log : list kv) (kf : list kv) (len size : N
   | _, _ => (log, kf, len, size)
   end.
 
-Definition xrevert_to (st : xbuf) (n : nat) (stages' : list nat) : xbuf :=
+Definition xrevert_to (st : xbuf) (n : nat) (stages' : list nat) (cp' : nat) : xbuf :=
   let log := b_log (x_b st) in
   let '(log', kf', len', size') := revert_entries (length log - n) log (x_kf st) (x_len st) (x_size st) in
-  mk_xbuf (mk_mbuf log' stages') kf' len' size' (x_elim st) (x_blim st) (x_wseq st + 1).
+  mk_xbuf (mk_mbuf log' stages' cp') kf' len' size' (x_elim st) (x_blim st) (x_wseq st + 1).
 
 Definition xstep (st : xbuf) (o : xop) : xbuf * nat :=
   match o with
@@ -143,10 +143,12 @@ Definition xstep (st : xbuf) (o : xop) : xbuf * nat :=
       else (st, op_status (x_b st) (ORelease h))
   | XCleanup h =>
       if handle_live (x_b st) h
-      then (xrevert_to st (hd O (b_stages (x_b st))) (tl (b_stages (x_b st))), 0%nat)
+      then (xrevert_to st (hd O (b_stages (x_b st))) (tl (b_stages (x_b st)))
+                       (Nat.min (b_cp (x_b st)) (hd O (b_stages (x_b st)))), 0%nat)
       else (st, op_status (x_b st) (OCleanup h))
-  | XCheckpoint => (st, 0%nat)
-  | XRevert n => (xrevert_to st n (b_stages (x_b st)), 0%nat)
+  | XCheckpoint =>
+      (mk_xbuf (step true (x_b st) OCheckpoint) (x_kf st) (x_len st) (x_size st) (x_elim st) (x_blim st) (x_wseq st), 0%nat)
+  | XRevert n => (xrevert_to st n (b_stages (x_b st)) n, 0%nat)
   | XLimits e b => (mk_xbuf (x_b st) (x_kf st) (x_len st) (x_size st) e b (x_wseq st), 0%nat)
   end.
 
